@@ -1,4 +1,5 @@
 import LexgenModel.Proofs.NextMore
+import LexgenModel.Proofs.EndToEnd
 /-!
 # C08 — After a failure the lexer resumes past the bad text, in Init, and stays there
 -/
@@ -25,5 +26,13 @@ theorem C08_resume_position (cfg : Config σ τ ε) (hm : MachineOK cfg) (s : Na
   have h1 := scanPlain_err_pos cfg _ hm.targets hns s st hlast hdone loc st' h
   have h2 := scanPlain_err cfg _ hm.targets hns s st hlast loc st' h
   exact ⟨h1.1, h1.2, h2.2.2.2.2.2.2⟩
+
+/-- …for every well-formed definition the model compiles. -/
+theorem C08_reset_to_init_compiled (items : LexerDef) (c : Compiled) (h : compileLexer items = .ok c) (hok : DefOK items)
+    (actions : Nat → Action σ τ ε) (width : Nat → Nat) (input : Option (List Nat)) (st : LState σ)
+    (hr : Ready (c.config actions width input) st) (l : Loc) (st' : LState σ)
+    (hn : next (c.config actions width input) st = some (some (.invalid l), st')) :
+    st'.state = 0 ∧ st'.initial = 0 ∧ st'.curStart = st'.curEnd ∧ st'.last = none :=
+  next_invalid _ (compileLexer_machineOK items c h hok actions width input) st hr l st' hn
 
 end Lexgen
